@@ -36,7 +36,7 @@ Inductive gcond :=
 | GCidUndef                  (* pin.Cid == cid.Undef: CIDs of the model are always defined *)
 | GUpdateUndef               (* pin.PinUpdate == cid.Undef *)
 | GUpdateIsCid               (* pin.PinUpdate.Equals(pin.Cid) *)
-| GExpireZero | GExpireBefore          (* pin.ExpireAt.IsZero() / .Before(time.Now()) *)
+| GExpireZero | GExpireBefore | GExpireAfter   (* pin.ExpireAt.IsZero() / .Before(time.Now()) / .After(time.Now()) *)
 | GOptNameEmpty | GOptExpireZero | GOptExpireAfter   (* PinUpdate's opts: Name == "", ExpireAt.IsZero(), ExpireAt.After(time.Now()) *)
 | GEverywhere                (* pin.IsPinEverywhere() *)
 | GOptsEqual                 (* pin.PinOptions.Equals(&existing.PinOptions): opts_equal (C04_ClusterOps; its own theorems are in C08_Equals) *)
@@ -110,6 +110,7 @@ Fixpoint eval_c (x : gctx) (c : gcond) : bool :=
   | GUpdateIsCid => match o_update (p_opts (x_pin x)) with Some u => (u =? p_cid (x_pin x))%N | None => false end
   | GExpireZero => negb (is_some (o_expire (p_opts (x_pin x))))
   | GExpireBefore => expire_past (x_now x) (o_expire (p_opts (x_pin x)))
+  | GExpireAfter => match o_expire (p_opts (x_pin x)) with Some t => t_after t (x_now x) | None => false end
   | GOptNameEmpty => (o_name (x_opts x) =? 0)%N
   | GOptExpireZero => negb (is_some (o_expire (x_opts x)))
   | GOptExpireAfter => match o_expire (x_opts x) with Some t => t_after t (x_now x) | None => false end
@@ -272,7 +273,7 @@ Fixpoint gcond_eqb (a b : gcond) : bool :=
   | GBool x, GBool y => Bool.eqb x y
   | GLe x y, GLe x' y' | GLt x y, GLt x' y' | GEq x y, GEq x' y' => gz_eqb x x' && gz_eqb y y'
   | GFollower, GFollower | GTypeSame, GTypeSame | GRefNil, GRefNil | GCidUndef, GCidUndef | GUpdateUndef, GUpdateUndef
-  | GUpdateIsCid, GUpdateIsCid | GExpireZero, GExpireZero | GExpireBefore, GExpireBefore | GOptNameEmpty, GOptNameEmpty
+  | GUpdateIsCid, GUpdateIsCid | GExpireZero, GExpireZero | GExpireBefore, GExpireBefore | GExpireAfter, GExpireAfter | GOptNameEmpty, GOptNameEmpty
   | GOptExpireZero, GOptExpireZero | GOptExpireAfter, GOptExpireAfter | GEverywhere, GEverywhere | GOptsEqual, GOptsEqual
   | GStateErr, GStateErr => true
   | GIsNil w, GIsNil w' | GModeRec w, GModeRec w' => who_eqb w w'
@@ -315,7 +316,7 @@ Fixpoint show_gc (c : gcond) : string :=
   | GFollower => "follower mode" | GIsNil w => show_who w ++ " == nil" | GTypeIs w t => show_who w ++ ".Type == " ++ show_ty t
   | GTypeSame => "existing.Type == pin.Type" | GModeRec w => show_who w ++ ".Mode == recursive" | GRefNil => "pin.Reference == nil"
   | GCidUndef => "pin.Cid undefined" | GUpdateUndef => "pin.PinUpdate undefined" | GUpdateIsCid => "pin.PinUpdate == pin.Cid"
-  | GExpireZero => "pin.ExpireAt zero" | GExpireBefore => "pin.ExpireAt before now"
+  | GExpireZero => "pin.ExpireAt zero" | GExpireBefore => "pin.ExpireAt before now" | GExpireAfter => "pin.ExpireAt after now"
   | GOptNameEmpty => "opts.Name empty" | GOptExpireZero => "opts.ExpireAt zero" | GOptExpireAfter => "opts.ExpireAt after now"
   | GEverywhere => "pin everywhere" | GOptsEqual => "options equal to the existing pin's" | GStateErr => "state read error"
   | GFails f => f ++ " fails"
